@@ -66,6 +66,13 @@ class CSSUnknownRule(cssrule.CSSRule):
                 'CSSUnknownRule: No CSSUnknownRule found: %s' % self._valuestr(cssText),
                 error=xml.dom.InvalidModificationErr,
             )
+        elif self._normalize(self._tokenvalue(attoken)) == '@charset':
+            # "@charset" without the mandatory space is no charset rule and,
+            # serialized with a space, must not become one
+            self._log.error(
+                'CSSUnknownRule: Invalid @charset rule: %s' % self._valuestr(cssText),
+                error=xml.dom.SyntaxErr,
+            )
         else:
             # for closures: must be a mutable
             new = {'nesting': [], 'wellformed': True}  # {} [] or ()
